@@ -235,3 +235,11 @@ chk("C08", TV,
     "symbolic address); Python side = real descriptors executed symbolically on symbolic map bytes and symbolic per-CPU lookup "
     "results; both against one byte-level reference",
     BASE_NOTE, "symbolic execution of the emitted eBPF bytes (z3 bit-vectors) and of the Python descriptors against a common byte-level reference", "A:8/C08")
+
+chk("C10", MC,
+    "seeded random programs (hash-map variables of all integer formats, per-CPU variables, Dict with packed Structure key/value): "
+    "every user-space map operation of the Python API runs through the real wrappers symbolically; the ctypes layer is replaced "
+    "by a kernel model proving for each call that key and value buffers cover what the kernel accesses (per-CPU: value size "
+    "rounded up to 8 times possible CPUs, possible >= online an engine decision). Sizes are concrete per program: mostly "
+    "exhaustive exploration, small solver part.",
+    PY_NOTE, "execution of the real map wrappers in the symbolic engine against a kernel model that asserts buffer sizes", "B:8/C10")
